@@ -3349,6 +3349,24 @@ theorem c15_client_loop_stops_at_the_first_close :
     clientLoop [.data 0 1, .closeError, .data 0 2] = ([(0, 1)], .closed false) ∧
     clientLoop [.data 0 1, .data 1 7] = ([(0, 1), (1, 7)], .waiting) := by decide
 
+/-! ### a message whose encoding is empty (seed C15r7-B) -/
+
+/-- **the empty message is a message**: `outChan` carries byte slices and the write loop tells the end of
+the stream by the channel being closed (`!ok`, lifted from the source in `Props/C15Gen.lean`), not by what
+a slice holds.  The driver maps the message with the empty encoding to value 0 of channel 0 — every
+theorem above quantifies over it; here the concrete run: it is written in its place, the stream goes on,
+the normal close comes only after the service closed its channel, and the client's loop hands over all
+three values.  (A write loop that tests `reply == nil` ends the stream at the second frame: the run
+`corpus:empty-message` then shows `c15:incomplete`.) -/
+theorem c15_empty_message_is_a_message :
+    let mid := run .fixed caps10 (init .fresh)
+      [.aStep, .emit 0 0 1, .fStep 0 0, .wOut, .emit 0 0 0, .fStep 0 0, .wOut]
+    let s := run .fixed caps10 mid [.emit 0 0 2, .fStep 0 0, .wOut, .svcClose 0, .fStep 0 0, .wOut]
+    mid.s2c = [.data 0 1, .data 0 0] ∧ mid.wdone = false ∧ mid.outClosed = false ∧ mid.stopAll = false ∧
+    s.s2c = [.data 0 1, .data 0 0, .data 0 2, .closeNormal] ∧
+    clientLoop s.s2c = ([(0, 1), (0, 0), (0, 2)], .closed true) ∧
+    (s.streams.map (·.emitted)) = [[1, 0, 2]] := by decide
+
 /-! ### the code regions the model stands for
 Regenerated from /repo's source on every run (`harness/cmd/astfacts` → `OnetVerif/Shapes.lean`): the
 calls that matter for synchronisation and data flow, the lock regions and (for decision logic) the
